@@ -1,4 +1,5 @@
 import TrionModel.Lemmas.LexFrame
+import TrionModel.Lemmas.ParseSegs
 import TrionModel.Props.C12Parse
 /-!
 # C12 — exact token positions for every source layout
@@ -68,7 +69,8 @@ theorem exact_token (text : Bytes) (ts : List Token) (h : Exact text 0 ts) :
   obtain ⟨o, e, _, h2, h3, h4, h5⟩ := exact_mem h t ht
   exact ⟨o, e, h2, h3, h4, h5⟩
 
-/-- C12.L5 `stmt_pos_exact`  Statements: on every layout, every element the parser produces from the
+/-- C12.L5 `stmt_pos_exact`  (WEAK form, kept for compatibility — it does not say WHICH tokens the elements start
+at; the exact statement is `stmt_pos_segments` below.) Statements: on every layout, every element the parser produces from the
 tokenizer's output carries the specified position `Pos.of (text.take o)` of the offset `o` at which the
 spelling of its first token — a `.` or an identifier — starts; the elements follow the order of the tokens. -/
 theorem stmt_pos_exact (text : Bytes) (ts : List Token) (h : Exact text 0 ts) (els : List Element)
@@ -117,6 +119,38 @@ theorem pieces_are_layouts (ps : List Piece) (hv : Valid ps none) :
   refine ⟨(toLayout ps []).1, (toLayout ps []).2, toLayout_ok ps hv [] (by simp), ?_, ?_⟩
   · simpa using toLayout_text ps []
   · exact toLayout_toks ps [] []
+
+/-- C12.L8 `stmt_pos_segments`  **Exact statement positions.** For a text with an exact token placement, the
+parser run cuts the token list into consecutive segments, one per element, followed by a leftover that is empty
+when the run ends without error (`Parse.StmtsAt`, `Lemmas/ParseSegs.lean`). For the `i`-th element: after the
+offset `stopᵢ₋₁` where the previous segment's last token ended (`0` for the first) comes separator text up to
+`oᵢ`; `[oᵢ, eᵢ)` spells the first token of segment `i`, a `.` or the name / label identifier; the remaining tokens of
+the segment are placed exactly from `eᵢ` to `stopᵢ`; `do_next` reads element `i` from exactly this segment; and
+element `i` carries `Pos.of (text.take oᵢ)`. Nothing is left to choose: see `stmt_pos_determined`. -/
+theorem stmt_pos_segments (text : Bytes) (ts : List Token) (h : Exact text 0 ts) (els : List Element)
+    (err : Option ParseErr) (hp : Parse.all ⟨ts, none, (Pos.of text).1, (Pos.of text).2⟩ = .done els err) :
+    ∃ left, Parse.StmtsAt text ⟨ts, none, (Pos.of text).1, (Pos.of text).2⟩ 0 ts els left ∧ (err = none → left = []) := by
+  obtain ⟨left, hs, hl⟩ := Parse.allLoop_segs _ _ _ els err hp
+  exact ⟨left, Parse.stmtsAt_of_segs hs h, hl⟩
+
+/-- C12.L9 `stmt_pos_determined`  The located segmentation is determined by the text and its tokens: any elements
+that satisfy it (as many as the parser produced) ARE the parser's elements, positions included — a wrong position
+list has no such segmentation (examples below). -/
+theorem stmt_pos_determined (text : Bytes) (lo : LexOut) (ts : List Token) (els els' : List Element)
+    (left left' : List Token) (start start' : Nat)
+    (h : Parse.StmtsAt text lo start ts els left) (h' : Parse.StmtsAt text lo start' ts els' left')
+    (hlen : els'.length = els.length) : els' = els :=
+  Parse.stmtsAt_det h' h hlen
+
+/-- C12.L10  The statement offsets: strictly increasing, one per element, each element at the specified position of
+its offset. (A corollary of `stmt_pos_segments`; on its own it would not fix the offsets.) -/
+theorem stmt_pos_offsets (text : Bytes) (ts : List Token) (h : Exact text 0 ts) (els : List Element)
+    (err : Option ParseErr) (hp : Parse.all ⟨ts, none, (Pos.of text).1, (Pos.of text).2⟩ = .done els err) :
+    ∃ offs : List Nat, offs.length = els.length ∧ offs.Pairwise (· < ·) ∧ (∀ o ∈ offs, o < text.length) ∧
+      els.map (fun e => (e.line, e.col)) = offs.map (fun o => Pos.of (text.take o)) := by
+  obtain ⟨left, hs, _⟩ := stmt_pos_segments text ts h els err hp
+  obtain ⟨offs, h1, h2, h3, h4⟩ := Parse.stmtsAt_offsets hs
+  exact ⟨offs, h1, h2, fun o ho => (h3 o ho).2, h4⟩
 
 /-! ### non-vacuity -/
 
@@ -219,5 +253,67 @@ example : tokens (ltext strL []) =
     .ok ⟨[⟨1, 1, .dirMark⟩, ⟨1, 2, .ident (bytesOf "d")⟩, ⟨1, 4, .str [97, 59, 42, 47, 10, 0xC3, 0xA9]⟩, ⟨1, 14, .sep⟩,
       ⟨1, 16, .num 0xE9⟩, ⟨1, 20, .shl⟩, ⟨1, 23, .num 15⟩, ⟨1, 28, .div⟩, ⟨1, 30, .num 2⟩, ⟨1, 32, .term⟩], none, 1, 33⟩ :=
   (layout_tokens strL [] strL_ok).trans (by decide)
+
+/-! ### the second audit's witnesses: wrong element positions are refuted -/
+
+/-- `mov r0; nop;` -/
+def movL : List LTok :=
+  [⟨[], bytesOf "mov", .ident (bytesOf "mov")⟩, ⟨[32], bytesOf "r0", .ident (bytesOf "r0")⟩, ⟨[], bytesOf ";", .term⟩,
+   ⟨[32], bytesOf "nop", .ident (bytesOf "nop")⟩, ⟨[], bytesOf ";", .term⟩]
+
+theorem movL_ok : LOk movL [] := by
+  refine ⟨IsSep.nil, Spell.ident _ _ (by decide) (by intro b hb; cases hb; decide), isSep_ws [32] (by decide),
+    Spell.ident _ _ (by decide) (by intro b hb; cases hb; decide), IsSep.nil, Spell.punct 59 _ _ (by decide) (by decide),
+    isSep_ws [32] (by decide), Spell.ident _ _ (by decide) (by intro b hb; cases hb; decide), IsSep.nil,
+    Spell.punct 59 _ _ (by decide) (by decide), Or.inl IsSep.nil⟩
+
+example : ltext movL [] = bytesOf "mov r0; nop;" := by decide
+
+def movLo : LexOut := ⟨ltoks [] movL, none, (Pos.of (ltext movL [])).1, (Pos.of (ltext movL [])).2⟩
+
+theorem mov_all : Parse.all movLo =
+    .done [⟨1, 1, .instruction (bytesOf "mov") (.cons (.ident (bytesOf "r0")) .nil)⟩, ⟨1, 9, .instruction (bytesOf "nop") .nil⟩] none := by
+  rfl
+
+/-- the true positions are (1,1) and (1,9); the list [(1,1),(1,5)] (1:5 is the operand `r0`), which the weak
+`stmt_pos_exact` conclusion allowed, has no located segmentation -/
+example : ∀ (els' : List Element) (left' : List Token) (start' : Nat),
+    Parse.StmtsAt (ltext movL []) movLo start' movLo.toks els' left' →
+    els'.map (fun e => (e.line, e.col)) ≠ [(1, 1), (1, 5)] := by
+  intro els' left' start' h' hpos
+  have hex : Exact (ltext movL []) 0 (ltoks [] movL) := by simpa using layout_exact movL [] movL_ok []
+  obtain ⟨left, hs, _⟩ := stmt_pos_segments _ _ hex _ none mov_all
+  have hlen : els'.length = 2 := by simpa using congrArg List.length hpos
+  have := stmt_pos_determined _ _ _ _ els' _ _ _ _ hs h' (by simpa using hlen)
+  subst this
+  revert hpos
+  decide
+
+/-- `mov r0;`: the position 1:2 (where the identifier-like substring `ov` starts), which the per-element conjunct
+of `parse_text` allowed, is refuted: the only element sits at 1:1 -/
+def mov1L : List LTok :=
+  [⟨[], bytesOf "mov", .ident (bytesOf "mov")⟩, ⟨[32], bytesOf "r0", .ident (bytesOf "r0")⟩, ⟨[], bytesOf ";", .term⟩]
+
+theorem mov1L_ok : LOk mov1L [] := by
+  refine ⟨IsSep.nil, Spell.ident _ _ (by decide) (by intro b hb; cases hb; decide), isSep_ws [32] (by decide),
+    Spell.ident _ _ (by decide) (by intro b hb; cases hb; decide), IsSep.nil, Spell.punct 59 _ _ (by decide) (by decide),
+    Or.inl IsSep.nil⟩
+
+def mov1Lo : LexOut := ⟨ltoks [] mov1L, none, (Pos.of (ltext mov1L [])).1, (Pos.of (ltext mov1L [])).2⟩
+
+theorem mov1_all : Parse.all mov1Lo = .done [⟨1, 1, .instruction (bytesOf "mov") (.cons (.ident (bytesOf "r0")) .nil)⟩] none := by
+  rfl
+
+example : ∀ (els' : List Element) (left' : List Token) (start' : Nat),
+    Parse.StmtsAt (ltext mov1L []) mov1Lo start' mov1Lo.toks els' left' →
+    els'.map (fun e => (e.line, e.col)) ≠ [(1, 2)] := by
+  intro els' left' start' h' hpos
+  have hex : Exact (ltext mov1L []) 0 (ltoks [] mov1L) := by simpa using layout_exact mov1L [] mov1L_ok []
+  obtain ⟨left, hs, _⟩ := stmt_pos_segments _ _ hex _ none mov1_all
+  have hlen : els'.length = 1 := by simpa using congrArg List.length hpos
+  have := stmt_pos_determined _ _ _ _ els' _ _ _ _ hs h' (by simpa using hlen)
+  subst this
+  revert hpos
+  decide
 
 end Trion.Lex
